@@ -11,6 +11,6 @@ git -C /repo worktree add -q "$d/repo" HEAD || exit 2
 git -C "$d/repo" apply "$patch" || { echo "patch does not apply"; git -C /repo worktree remove --force "$d/repo"; rm -rf "$d"; exit 2; }
 rsync -a --exclude .git --exclude replays --exclude 'seeded' --exclude-from=/verif/.git/info/exclude /verif/ "$d/verif/"
 sed -i "s|=> /repo|=> $d/repo|" "$d/verif/harness/go.mod"
-(cd "$d/verif" && VERIF_REPO="$d/repo" ./check "$prop" "$tier" 2>&1 | grep -E "^(VIOLATION|OK|KNOWN|check:)" | cut -c1-600)
+(cd "$d/verif" && VERIF_REPO="$d/repo" timeout 2400 ./check "$prop" "$tier" 2>&1 | grep -E "^(VIOLATION|OK|KNOWN|check:)" | cut -c1-600)
 for f in "$d"/verif/replays/*; do [ -f "$f" ] && { echo "--- $(basename $f)"; head -c 700 "$f"; echo; }; done 2>/dev/null
 git -C /repo worktree remove --force "$d/repo"; rm -rf "$d"
